@@ -207,6 +207,49 @@ def run(ctx):
         ctx.inconclusive("R6.provenance", "page-read-trace|%s:%s" % (PR, dp.name), P.where(dp.body),
                          "abstract execution of the data-page reader", "%s: %s" % (type(ex).__name__, ex))
     ctx.floor("C06 data-page reader configurations", ntr, 60)
+    # ---- where pages are found: the loaders, executed abstractly (same harness as C14)
+    ctx.clause("C06.7 pages are located by header size + stored (compressed) size: dictionary page, then data pages one after the other")
+    from ..rules import loaders as LD
+    ptv = P.enum("carquet_page_type")
+    cdc = P.enum("carquet_compression")
+    geo = {"dict-then-data": None, "page-at-cursor": None, "advance-by-stored-size": None}
+    ngeo = 0
+    try:
+        for name in LD.LOADERS:
+            isdict = "dictionary" in name
+            for codec in (cdc["CARQUET_COMPRESSION_UNCOMPRESSED"], cdc["CARQUET_COMPRESSION_SNAPPY"], cdc["CARQUET_COMPRESSION_ZSTD"]):
+                for cur in ((0,) if isdict else (0, 777)):
+                    ret, ev, out = LD.trace(P, name, ptv["CARQUET_PAGE_DICTIONARY"] if isdict else ptv["CARQUET_PAGE_DATA"],
+                                            0, 1, 0, 0, codec, current_page=cur)
+                    ngeo += 1
+                    sc = "%s, codec %d%s" % (name, codec, "" if isdict else ", %d bytes of pages already read" % cur)
+                    if ret != 0:
+                        geo["page-at-cursor"] = geo["page-at-cursor"] or "%s: returns %s" % (sc, ret)
+                        continue
+                    if isdict:
+                        want = LD.DICT_OFF + LD.HEADER_SIZE + LD.CSIZE
+                        if out["data_start_offset"] != want:
+                            geo["dict-then-data"] = geo["dict-then-data"] or (
+                                "%s: first data page expected at %s; the dictionary page is %d header + %d stored bytes at %d, so it ends at %d"
+                                % (sc, out["data_start_offset"], LD.HEADER_SIZE, LD.CSIZE, LD.DICT_OFF, want))
+                    else:
+                        hdr = [e for e in ev if e[0] == "parse-header"]
+                        rd = [e for e in ev if e[0] == "read"]
+                        at = rd[0][1] if rd else (hdr[0][1][1] if hdr and isinstance(hdr[0][1], tuple) and len(hdr[0][1]) > 1 else None)
+                        if at != LD.DATA_OFF + cur:
+                            geo["page-at-cursor"] = geo["page-at-cursor"] or "%s: header read at %s, expected %d" % (sc, at, LD.DATA_OFF + cur)
+                        if out["page_header_size"] != LD.HEADER_SIZE or out["page_compressed_size"] != LD.CSIZE:
+                            geo["advance-by-stored-size"] = geo["advance-by-stored-size"] or (
+                                "%s: records header %s + payload %s, the page is %d + %d stored bytes"
+                                % (sc, out["page_header_size"], out["page_compressed_size"], LD.HEADER_SIZE, LD.CSIZE))
+        whatg = {"dict-then-data": "after the dictionary page the first data page is looked for at dictionary offset + header size + compressed (stored) size, whatever the codec",
+                 "page-at-cursor": "a data page header is read at data_start_offset + the bytes of the pages already consumed",
+                 "advance-by-stored-size": "the loader records header size and compressed (stored) size of the page, the amounts the cursor advances by"}
+        for k_, msg in geo.items():
+            ctx.ob("R6.provenance", "%s|%s" % (k_, PR), PR, whatg[k_] + " (%d loader scenarios, abstract execution)" % ngeo, msg is None, msg or "")
+    except (sem.Inconclusive, KeyError) as ex:
+        ctx.inconclusive("R6.provenance", "page-geometry|%s" % PR, PR, "abstract execution of the page loaders", "%s: %s" % (type(ex).__name__, ex))
+    ctx.floor("C06 loader geometry scenarios", ngeo, 12)
     # definition levels of non-nullable pages default to max (all present)
     # ---- (4)
     for en, (spec, prefix) in C05.ENUM_MAP.items():
